@@ -22,7 +22,7 @@ async fn open_epoch(s: &mut Sim, g: &mut G) -> u64 {
 }
 
 async fn run(mut s: Sim, mut rng: Rng, _len: usize) -> Sim {
-    let which = ((s.n >> 32) - 1) % 14;   // history id: consecutive histories run the scripts in turn
+    let which = ((s.n >> 32) - 1) % 15;   // history id: consecutive histories run the scripts in turn
     if (7..12).contains(&which) { return unconfigured(s, rng, which).await; }
     let mut g = bootstrap_with(&mut s, &mut rng, None).await;
     // make the configuration deterministic where the scripts depend on it
@@ -93,6 +93,11 @@ async fn run(mut s: Sim, mut rng: Rng, _len: usize) -> Sim {
             let script = K::User(60);
             let mut data = vec![1u8]; data.extend_from_slice(&debt.to_le_bytes()); data.extend_from_slice(&800u64.to_le_bytes()); data.extend_from_slice(&1u64.to_le_bytes());
             s.op(Op::ForgeRaw { to: script.clone(), owner: rogue.clone(), lamports: 2_000_000, data }).await;
+            // C05 / C09: the sweep routed to a swap program that is NOT the configured one (its own accounts, a well-formed reply)
+            let (other, script2) = (K::Rogue(2), K::User(62));
+            let mut data2 = vec![1u8]; data2.extend_from_slice(&debt.to_le_bytes()); data2.extend_from_slice(&400u64.to_le_bytes()); data2.extend_from_slice(&1u64.to_le_bytes());
+            s.op(Op::ForgeRaw { to: script2.clone(), owner: other.clone(), lamports: 2_000_000, data: data2 }).await;
+            let ix = s.rd_sweep(e, &other, &script2); s.op(tx(vec![ix])).await;
             let ix = s.rd_sweep(e, &rogue, &script); s.op(tx(vec![ix])).await;
             // and the other malformed replies of the property's quantifier: none, short, wrong SOL amount
             let e2 = g.eps.len() as u64 - 1;
@@ -219,6 +224,47 @@ async fn run(mut s: Sim, mut rng: Rng, _len: usize) -> Sim {
                 let l: Vec<(K, u16)> = rec.iter().enumerate().map(|(j, x)| (K::User(320 + j as u64), *x)).collect();
                 let ix = s.rd_configure_contributor_recipients(&mgr, &svc, &l); s.op(tx(vec![ix])).await;
             }
+        }
+        14 => { // C08: every instruction of an epoch's pipeline (and the contributor settings), each first attempted while the program is
+                // paused (refused, nothing changes), then again after the admin has cleared the flag (behaves as if never paused)
+            let admin = g.admin.clone();
+            macro_rules! both { ($ix:expr) => {{
+                let ix = $ix;
+                let p = s.rd_configure(&admin, RdSetting::Paused(true)); s.op(tx(vec![p])).await;
+                s.op(tx(vec![ix.clone()])).await;
+                let u = s.rd_configure(&admin, RdSetting::Paused(false)); s.op(tx(vec![u])).await;
+                s.op(tx(vec![ix])).await;
+            }}; }
+            let (v, m) = (g.svcs[1].clone(), g.users[9].clone());
+            both!(s.rd_set_rewards_manager(&g.cmgr, &v, &m));
+            both!(s.rd_configure_contributor_block(&m, &v, true));
+            both!(s.rd_configure_contributor_block(&m, &v, false));
+            let rec = vec![(K::User(310), 4_000u16), (K::User(311), 6_000u16)];
+            both!(s.rd_configure_contributor_recipients(&m, &v, &rec));
+            for (r, _) in &rec { s.reg_ata(r); s.op(Op::CreateAta { payer: g.payer.clone(), owner: r.clone() }).await; }
+            g.clock += g.init_grace * 60; s.op(Op::SetClock(g.clock)).await;
+            let e = g.eps.len() as u64;
+            both!(s.rd_initialize_distribution(&g.debt_acc, &g.payer, e));
+            g.eps.push(crate::fam_rd::Ep { e, ..Default::default() });
+            g.clock += g.calc_grace * 60; s.op(Op::SetClock(g.clock)).await;
+            let (a, w) = (600_000u64, 50_000u64);
+            let t = s.def_tree(0, vec![Leaf::Debt { node: g.nodes[0].clone(), amount: a }, Leaf::Debt { node: g.nodes[6].clone(), amount: w }]);
+            both!(s.rd_configure_debt(&g.debt_acc, e, 2, a + w, t.root));
+            both!(s.rd_finalize_debt(&g.debt_acc, e, &g.payer));
+            s.op(Op::Airdrop(K::RdDeposit(b(&g.nodes[0])), a)).await;
+            let p0 = s.proof(&t, 0).unwrap(); let p1 = s.proof(&t, 1).unwrap();
+            both!(s.rd_pay(e, &g.nodes[0].clone(), a, &p0));
+            both!(s.rd_enable_write_off(e, &g.payer));
+            both!(s.rd_write_off(&g.debt_acc, e, &g.nodes[6].clone(), e, w, &p1));
+            let rt = s.def_tree(1, vec![Leaf::Reward { contributor: v.clone(), unit_share: 1_000_000_000, packed: 0 }]);
+            both!(s.rd_configure_rewards(&g.rew_acc, e, 1, rt.root));
+            let _ = open_epoch(&mut s, &mut g).await;
+            both!(s.rd_finalize_rewards(&g.payer, e));
+            both!(s.sw_buy(&g.fills, &K::Ata(b(&g.buyer), b(&K::Mint)), &g.buyer, &g.users[8], 70_000, a));
+            both!(s.rd_sweep(e, &K::SwapMock, &g.fills));
+            let pr = s.proof(&rt, 0).unwrap();
+            let recs: Vec<K> = rec.iter().map(|x| x.0.clone()).collect();
+            both!(s.rd_distribute(e, &v, &g.relayer, &recs, 1_000_000_000, 0, &pr));
         }
         13 => { // C03 / C02: amounts where floor(share x remainder / 10 000) no longer fits a u64 product
             let src = K::Ata(b(&g.buyer), b(&K::Mint));
